@@ -882,21 +882,28 @@ func (t *tree) parseExpr(prec int) ast.Node {
 	var tok item
 	for {
 		tok = t.next()
+		if prec == 0 && tok.typ == itemTernIf {
+			// The conditional operator shares the lowest level with ?: and, like
+			// it, groups to the right: each of its last two operands is a whole
+			// expression, so "$a ? $b ? 1 : 2 : 3" and "$a ? 1 : $b ? 2 : 3" nest.
+			n1 := t.parseExpr(0)
+			t.expect(itemColon, "ternary")
+			n2 := t.parseExpr(0)
+			n = &ast.TernNode{n.Position(), n, n1, n2}
+			continue
+		}
 		q := precedence[tok.typ]
 		if !isBinaryOp(tok.typ) || q < prec {
 			break
 		}
-		q++
+		if tok.typ != itemElvis {
+			q++ // (?: groups to the right: "$a ?: $b ? 1 : 2" is "$a ?: ($b ? 1 : 2)")
+		}
 		n = newBinaryOpNode(tok, n, t.parseExpr(q))
 		// (every further operator of a chain puts the tree built so far one
 		// level deeper: 1 + 1 + 1 + ... nests as deeply as ((...)) does.)
 		t.nest()
 		levels++
-	}
-	if prec == 0 && tok.typ == itemTernIf {
-		n = t.parseTernary(n)
-		t.depth -= levels
-		return n
 	}
 	t.backup()
 	t.depth -= levels
@@ -1043,20 +1050,6 @@ func (t *tree) parseMapLiteral(first item, expr ast.Node) ast.Node {
 		}
 		t.expect(itemColon, "map literal")
 	}
-}
-
-// parseTernary parses the ternary operator within an expression.
-// itemTernIf has already been read, and the condition is provided.
-func (t *tree) parseTernary(cond ast.Node) ast.Node {
-	n1 := t.parseExpr(0)
-	t.expect(itemColon, "ternary")
-	n2 := t.parseExpr(0)
-	result := &ast.TernNode{cond.Position(), cond, n1, n2}
-	if t.peek().typ == itemColon {
-		t.next()
-		return t.parseTernary(result)
-	}
-	return result
 }
 
 func isBinaryOp(typ itemType) bool {
